@@ -8,9 +8,11 @@
 //!
 //! One case per line:
 //!   rt  <ver:1|2> <end:le|be> <type> | <value>     serialize, then deserialize the produced bytes
+//!   rtt <cut> <ver> <end> <type> | <value>         serialize, drop the last <cut> bytes, deserialize
 //!   dec <type> | <hex>                             deserialize the given bytes
 //! Output:
 //!   rt : `S <hex> <dec>` | `SE <code>` | `SP` (serializer panicked)
+//!   rtt: `T <hex of the truncated bytes> <dec>` (or SE / SP)
 //!   dec: `<dec>`
 //!   <dec> = `D <value>` | `E <code>` | `P` (deserializer panicked)
 //!
